@@ -5,7 +5,8 @@
 (* Two detector slots d1, d2 and their scorer objects.  With Sharing =    *)
 (* "shared" both detectors hold THE SAME cost object c0 (aliasing), with  *)
 (* "private" each has its own (c1, c2).  A history is any sequence of     *)
-(* set_params / clone / deepcopy / fit / update / predict / transform /   *)
+(* set_params / reset / clone / deepcopy / pickle / fit / update / predict *)
+(* / transform /                                                           *)
 (* transform_scores / fit_predict / fit_transform / update_predict calls  *)
 (* on the detectors and fit / evaluate calls on                            *)
 (* the scorer objects, over several datasets.                              *)
@@ -174,6 +175,22 @@ DeepCopy(d) ==
     /\ ret' = Ok /\ exp' = Ok /\ Log("deepcopy", d, "-", Ok)
     /\ UNCHANGED <<params, fitted, train, tunes, fitData, scores>>
 
+\* ---- pickle round trip (d = pickle.loads(pickle.dumps(d))): what deepcopy does, through __reduce__ / __getstate__
+Pickle(d) ==
+    LET c == CostOf(d) pc == Private(d) IN
+    /\ costOf' = [costOf EXCEPT ![d] = pc]
+    /\ costData' = [costData EXCEPT ![pc] = costData[c]] /\ lastFit' = [lastFit EXCEPT ![pc] = lastFit[c]]
+    /\ userFit' = [userFit EXCEPT ![pc] = userFit[c]]
+    /\ ret' = Ok /\ exp' = Ok /\ Log("pickle", d, "-", Ok)
+    /\ UNCHANGED <<params, fitted, train, tunes, fitData, scores>>
+\* ---- reset(): back to the state after construction, hyper-parameters (and the scorer OBJECT held) kept
+Reset(d) ==
+    /\ IF Leak = "keep_on_set" THEN UNCHANGED <<fitData, scores>>
+       ELSE fitData' = [fitData EXCEPT ![d] = <<>>] /\ scores' = [scores EXCEPT ![d] = None]
+    /\ fitted' = [fitted EXCEPT ![d] = FALSE] /\ train' = [train EXCEPT ![d] = <<>>]
+    /\ ret' = Ok /\ exp' = Ok /\ Log("reset", d, "-", Ok)
+    /\ UNCHANGED <<params, lastFit, costData, costOf, tunes, userFit>>
+
 \* ---- the scorer objects used directly -----------------------------------------------------------
 ScorerFit(c, a) ==
     /\ costData' = [costData EXCEPT ![c] = <<a>>] /\ lastFit' = [lastFit EXCEPT ![c] = <<a>>] /\ userFit' = [userFit EXCEPT ![c] = <<a>>]
@@ -197,7 +214,7 @@ Next ==
        \/ \E d \in Dets, a \in Data, m \in {"predict", "transform", "transform_scores"} : Call(m, d, a)
        \/ \E d \in Dets, a \in Data, m \in {"fit_predict", "fit_transform"} : FitCall(m, d, a)
        \/ \E d \in Dets, a \in Data : UpdatePredict(d, a)
-       \/ \E d \in Dets : DeepCopy(d)
+       \/ \E d \in Dets : DeepCopy(d) \/ Pickle(d) \/ Reset(d)
        \/ \E c \in {costOf[d] : d \in Dets}, a \in Data : ScorerFit(c, a)
        \/ \E c \in {costOf[d] : d \in Dets} : ScorerEvaluate(c)
 
@@ -218,7 +235,8 @@ HistHash == SumOver([i \in 1..Len(hist) |->
                                     ELSE IF hist[i].op = "transform_scores" THEN 17 ELSE IF hist[i].op = "clone" THEN 19
                                     ELSE IF hist[i].op = "set_params" THEN 23 ELSE IF hist[i].op = "scorer_fit" THEN 29
                                     ELSE IF hist[i].op = "fit_predict" THEN 59 ELSE IF hist[i].op = "fit_transform" THEN 61
-                                    ELSE IF hist[i].op = "update_predict" THEN 67 ELSE IF hist[i].op = "deepcopy" THEN 71 ELSE 37)
+                                    ELSE IF hist[i].op = "update_predict" THEN 67 ELSE IF hist[i].op = "deepcopy" THEN 71
+                                    ELSE IF hist[i].op = "pickle" THEN 73 ELSE IF hist[i].op = "reset" THEN 79 ELSE 37)
                 + (IF hist[i].obj \in {"d2", "c2"} THEN 41 * i ELSE 0)
                 + (IF hist[i].arg = "B" THEN 43 * i ELSE IF hist[i].arg = "C" THEN 47 * i ELSE IF hist[i].arg = "A2" THEN 53 * i ELSE 0)],
             1..Len(hist))
